@@ -16,12 +16,17 @@ case "$variant" in
   tsan) flags="$common -O1 -g1 -fsanitize=thread"; extra="-DENABLE_SHARABLE_DEVICE=ON";;
   *) echo "unknown variant $variant" >&2; exit 2;;
 esac
+launcher=""
+if command -v ccache >/dev/null 2>&1; then
+  export CCACHE_DIR="${CCACHE_DIR:-/verif/build/.ccache}" CCACHE_BASEDIR="$REPO" CCACHE_NOHASHDIR=1 CCACHE_MAXSIZE=8G
+  launcher="-DCMAKE_CXX_COMPILER_LAUNCHER=ccache -DCMAKE_C_COMPILER_LAUNCHER=ccache"
+fi
 exec 9>"$B/.lock"
 flock 9
 if [ ! -f "$B/build.ninja" ]; then
   cmake -G Ninja -S "$REPO" -B "$B" -DCMAKE_BUILD_TYPE=None \
     -DCMAKE_CXX_FLAGS="$flags" -DCMAKE_C_FLAGS="$flags" \
-    -DOCCA_ENABLE_TESTS=OFF -DOCCA_ENABLE_EXAMPLES=OFF -DOCCA_ENABLE_FORTRAN=OFF $extra \
+    -DOCCA_ENABLE_TESTS=OFF -DOCCA_ENABLE_EXAMPLES=OFF -DOCCA_ENABLE_FORTRAN=OFF $launcher $extra \
     > "$B/cmake.log" 2>&1 || { cat "$B/cmake.log" >&2; exit 2; }
 fi
 if ! ninja -C "$B" libocca > "$B/ninja.log" 2>&1; then
